@@ -154,7 +154,20 @@ class Gen:
         loc = {c: r.choice([-50, -3, 0, 2, 40]) + 7 * variant for c in NUM_COLS + ["y"]}
         sc = {c: r.choice([0.5, 1, 3, 10]) for c in NUM_COLS + ["y"]}
         for c in ["y"] + NUM_COLS:
-            cols.append([c, "float", [round(loc[c] + sc[c] * r.gauss(0, 1), 3) for _ in range(n)], None])
+            vals = [round(loc[c] + sc[c] * r.gauss(0, 1), 3) for _ in range(n)]
+            style = r.choices(["plain", "ties", "constant", "huge", "tiny", "zeros"], [16, 2, 1, 1, 1, 1])[0]
+            if c != "y" and style == "ties":
+                pool = [float(round(v)) for v in vals[:3]] or [0.0]
+                vals = [r.choice(pool) for _ in range(n)]  # many exact ties (quantile knots coincide)
+            elif c != "y" and style == "constant":
+                vals = [vals[0]] * n  # zero variance
+            elif c != "y" and style == "huge":
+                vals = [round(v * 1e7, 1) for v in vals]
+            elif c != "y" and style == "tiny":
+                vals = [round(v * 1e-6, 12) for v in vals]
+            elif c != "y" and style == "zeros":
+                vals = [0.0 if r.random() < 0.4 else v for v in vals]
+            cols.append([c, "float", vals, None])
 
         def levels_column(levels):
             # every level at least once when n allows, unequal counts otherwise
